@@ -712,7 +712,11 @@ func checkQueries(prop, tier string, seed int64) int {
 				what = what[:500]
 			}
 		}
-		replay := c.SaveReplay(prop, "queries", nil, map[string]string{"diag.txt": strings.Join(diags[c.Tid], "\n"), "record.json": string(r.Rec)})
+		var rargs any
+		if c.Source != "fixture" {
+			rargs = analyzeArgs{ThenFlatten: true, Full: i%2 == 1}
+		}
+		replay := c.SaveReplay(prop, "queries", rargs, map[string]string{"diag.txt": strings.Join(diags[tidBad], "\n"), "record.json": string(r.Rec)})
 		rep.AddViolation(Violation{Prop: prop, Tid: c.Tid, Sig: sig, What: "[" + c.Note + "] " + what, Replay: replay})
 	}
 	return rep.Finish()
